@@ -329,7 +329,6 @@ func init() {
 	vRegister("C09", "c09.huge", checkC09Huge)
 }
 
-
 // ---------------------------------------------------------------------------
 // huge files: one malformed line far beyond every buffer and size mark a reader may have (4 KiB, 64 KiB, 1 MiB,
 // 32 MiB), followed by more well-formed records
@@ -338,6 +337,8 @@ type c09HugeCase struct {
 	KiB   int  `json:"kib"`
 	IsLog bool `json:"islog"`
 	Cmd   int  `json:"cmd"`
+	CRLF  bool `json:"crlf,omitempty"` // every line ends in CR LF
+	Pad   int  `json:"pad,omitempty"`  // length of a comment line at the top: shifts every later line against the reader's chunk boundaries
 }
 
 var c09HugeLogCmds = [][]string{{"lint", "@F@"}, {"csv", "log"}, {"print"}, {"report", "quantity"}, {"reg"}, {"stats"}}
@@ -346,6 +347,10 @@ var c09HugeBookCmds = [][]string{{"lint", "@F@"}, {"csv", "database"}, {"report"
 func checkC09Huge(c c09HugeCase, ctx *vCtx) *vFailure {
 	var sb strings.Builder
 	line := 0
+	if c.Pad > 0 || c.CRLF {
+		sb.WriteString("#" + strings.Repeat("p", c.Pad) + "\n")
+		line++
+	}
 	for i := 0; sb.Len() < c.KiB*1024; i++ {
 		if c.IsLog {
 			sb.WriteString(vFmtDay(i%20000, "") + ":\n")
@@ -363,7 +368,12 @@ func checkC09Huge(c c09HugeCase, ctx *vCtx) *vFailure {
 	} else {
 		sb.WriteString("lastrecipe:\n  x: 1\n")
 	}
-	huge := vWriteFile("c09-huge.yaml", sb.String())
+	text := sb.String()
+	if c.CRLF {
+		text = strings.ReplaceAll(text, "\n", "\r\n")
+		ctx.Label("crlf")
+	}
+	huge := vWriteFile("c09-huge.yaml", text)
 	small := vWriteFile("c09-huge-other.yaml", map[bool]string{true: "r:\n  x: 1\n", false: "2021/01/01:\n  r: 1\n"}[c.IsLog])
 	cmds := c09HugeBookCmds
 	lp, bp := small, huge
@@ -419,8 +429,17 @@ func TestVerifC09Huge(t *testing.T) {
 			}
 		}
 	}
+	// CR LF files a little above the 64 KiB read buffer, swept over 64 alignments against the chunk boundaries
+	for pad := 0; pad < 64; pad++ {
+		for _, isLog := range []bool{true, false} {
+			space = append(space, c09HugeCase{KiB: 70, IsLog: isLog, Cmd: 0, CRLF: true, Pad: pad})
+			if pad%4 == 0 {
+				space = append(space, c09HugeCase{KiB: 140, IsLog: isLog, Cmd: 1, CRLF: true, Pad: pad})
+			}
+		}
+	}
 	vEnum(t, "C09", "c09.huge",
-		"logs and books of 70 KiB, 300 KiB, 1.1 MiB and 33 MiB (thorough: also 5, 65 and 130 MiB) whose only malformed line lies at the end of that much well-formed text, followed by one more record; lint and 4-5 commands; the error must name that line number and quote the line",
+		"logs and books of 70 KiB, 300 KiB, 1.1 MiB and 33 MiB (thorough: also 5, 65 and 130 MiB) whose only malformed line lies at the end of that much well-formed text, followed by one more record; lint and 4-5 commands; CR LF files of 70 / 140 KiB under 64 alignments against the read buffer; the error must name that line number and quote the line",
 		fmt.Sprintf("%d (size, file, command) combinations", len(space)), len(space), func(i int) c09HugeCase { return space[i] }, checkC09Huge)
 }
 
